@@ -188,6 +188,11 @@ func createdBy() (fn string, parent int64) {
 	if i < 0 {
 		return "", -1
 	}
+	if strings.Contains(st, "performQueuedEvictionsContinuously") {
+		// the background remover of a cache instance (the "created by" line
+		// names its creator, loadExistingFiles)
+		defer func() { fn = "performQueuedEvictionsContinuously" }()
+	}
 	line := st[i+len("created by "):]
 	if j := strings.IndexByte(line, '\n'); j >= 0 {
 		line = line[:j]
